@@ -18,10 +18,15 @@ type replay struct {
 }
 
 type runner struct {
-	c     *vh.Ctx
-	m     *vh.Model
-	batch []Case
+	c        *vh.Ctx
+	m        *vh.Model
+	shrunk   map[string]int // divergence kind → violations shrunk so far
+	failures int            // violating or mismatching programs so far
 }
+
+// after this many failing programs the remaining generated programs are skipped: the check has
+// failed anyway and every further failure costs a shrink
+const floodLimit = 60
 
 // ------------------------------------------------------------ judging one program
 
@@ -255,6 +260,10 @@ func shrink(c Case, kind string) Case {
 // ------------------------------------------------------------ one case through implementation, oracle, model
 
 func (r *runner) check(c Case, replayMode bool) {
+	if r.failures >= floodLimit && !replayMode {
+		r.c.Hit("skipped-after-flood")
+		return
+	}
 	impl := runScript(c.script())
 	ef, et := reference(c)
 	toks := tokens(et)
@@ -269,7 +278,12 @@ func (r *runner) check(c Case, replayMode bool) {
 
 	// property: the real interpreter against PHP's rules
 	if kind := divergence(impl.Final, impl.Trace, ef, et); kind != "" {
-		sc := shrink(c, kind)
+		r.failures++
+		sc := c
+		if r.shrunk[kind] < 3 || replayMode {
+			r.shrunk[kind]++
+			sc = shrink(c, kind)
+		}
 		si := runScript(sc.script())
 		sf, st := reference(sc)
 		sig := "exc:" + kind + ":" + features(sc)
@@ -287,6 +301,7 @@ func (r *runner) check(c Case, replayMode bool) {
 		}
 		r.c.Res.Traces++
 		if ans != impl.String() {
+			r.failures++
 			note := ""
 			if pin, err := r.m.Ask("run\tpinned\t" + c.G.model() + "\t" + c.modelProg()); err == nil && pin == impl.String() {
 				note = "the implementation agrees with the pre-fix (pinned) model: one of the C05 fixes is missing from this tree"
@@ -340,7 +355,7 @@ func witnessCases() []Case {
 // ------------------------------------------------------------ entry point
 
 func Run(c *vh.Ctx) {
-	r := &runner{c: c}
+	r := &runner{c: c, shrunk: map[string]int{}}
 	if c.ModelPath != "" {
 		if m, err := vh.StartModel(c.ModelPath); err == nil {
 			r.m = m
@@ -390,6 +405,9 @@ func Run(c *vh.Ctx) {
 	}
 	c.HitN("stream:random", nr)
 
+	if r.failures >= floodLimit {
+		c.Note("more than %d failing programs: the remaining generated programs were skipped", floodLimit)
+	}
 	r.known("")
 	r.cli("")
 	if r.m != nil {
